@@ -501,7 +501,16 @@ func (cx *Ctx) checkAttrFilter(r *Report) {
 		case unfiltered:
 			nUnfiltered++
 			// every attribute of the user is passed on: no iteration of the loop skips the append
-			if iterationCanSkip(fx.info(ap.Parent()), ap.Block()) {
+			// (one loop may serve both cases: an iteration that goes another way only where something WAS requested is the other case)
+			requestedSide := func(b *ssa.BasicBlock) bool {
+				for _, a := range fx.AtomsAtBlock(b) {
+					if a.Op == "EMPTY" && a.Neg && isQueriedAtom(a) {
+						return true
+					}
+				}
+				return false
+			}
+			if iterationCanSkipUnless(fx.info(ap.Parent()), ap.Block(), requestedSide) {
 				r.Fail("R-GUARD", key, w.InstrPos(ap), "with nothing requested an iteration over the user's attributes can skip the append: the answer does not contain all of them")
 			} else {
 				r.Ok("R-GUARD", key, w.InstrPos(ap), "all user attributes, only when no attribute was requested")
